@@ -43,6 +43,7 @@ type c20Fixture struct {
 	next  uint64
 	now   int64
 	a, b  robust.Id
+	batchA, batchB uint64 // ids of inputs that produced an output batch (JOIN of a, JOIN of b)
 	spare *ircserver.IRCServer
 }
 
@@ -91,11 +92,18 @@ func c20NewFixture(t *testing.T, dir string) *c20Fixture {
 	for _, l := range []string{"NICK a", "USER a 0 * :A", "OPER root operpw", "JOIN #c"} {
 		apply(ircserver.VEntry{Type: robust.IRCFromClient, Session: f.a, Data: l, ClientMessageId: f.next + 100, RemoteAddr: "10.0.0.1"})
 	}
+	f.batchA = f.next
 	apply(ircserver.VEntry{Type: robust.CreateSession, Data: "auth-b-0123456789"})
 	f.b = robust.Id{Id: f.next}
 	for _, l := range []string{"NICK b", "USER b 0 * :B", "JOIN #c"} {
 		apply(ircserver.VEntry{Type: robust.IRCFromClient, Session: f.b, Data: l, ClientMessageId: f.next + 100, RemoteAddr: "10.0.0.2"})
 	}
+	f.batchB = f.next
+	if _, ok := f.o.Get(robust.Id{Id: f.batchA}); !ok {
+		t.Fatal("HARNESS: fixture batch missing")
+	}
+	// a second stream object over the same data would share the cache; instead make sure the cache is cold
+	// for the operations under test: Get above warmed batchA only
 	f.h = api.NewHTTP(f.srv, nil, f.st, f.o, nil, vNetName, vNetPassword, dir, vPeerAddr, true, 3)
 	return f
 }
@@ -141,7 +149,7 @@ func c20Ops() []c20Op {
 		{"OutputStream.Add", "fsm", func(f *c20Fixture) {
 			f.o.Add([]outputstream.Message{{Id: robust.Id{Id: f.next + 5, Reply: 1}, Data: "x", InterestingFor: map[uint64]bool{f.a.Id: true}}})
 		}},
-		{"OutputStream.Delete", "fsm", func(f *c20Fixture) { f.o.Delete(robust.Id{Id: f.a.Id + 1}) }},
+		{"OutputStream.Delete", "fsm", func(f *c20Fixture) { f.o.Delete(robust.Id{Id: f.a.Id + 2}) }},
 		{"LevelDBStore.StoreLog", "fsm", func(f *c20Fixture) {
 			f.st.StoreLog(&raft.Log{Index: 5, Term: 1, Type: raft.LogCommand, Data: []byte("pyy")})
 		}},
@@ -170,8 +178,10 @@ func c20Ops() []c20Op {
 		{"GET /config", "http", func(f *c20Fixture) {
 			f.h.DispatchPrivateWithoutAuth(httptest.NewRecorder(), httptest.NewRequest("GET", "https://x/config", nil))
 		}},
-		{"OutputStream.Get", "http", func(f *c20Fixture) { f.o.Get(robust.Id{Id: f.a.Id + 1}) }},
-		{"OutputStream.GetNext", "http", func(f *c20Fixture) { f.o.GetNext(context.Background(), robust.Id{Id: f.a.Id}) }},
+		{"OutputStream.Get (cold batch)", "http", func(f *c20Fixture) { f.o.Get(robust.Id{Id: f.batchB}) }},
+		{"OutputStream.Get (warm batch)", "http", func(f *c20Fixture) { f.o.Get(robust.Id{Id: f.batchA}) }},
+		{"OutputStream.GetNext (chain)", "http", func(f *c20Fixture) { f.o.GetNext(context.Background(), robust.Id{Id: f.batchB - 1}) }},
+		{"OutputStream.GetNext (range search)", "http", func(f *c20Fixture) { f.o.GetNext(context.Background(), robust.Id{Id: f.a.Id}) }},
 		{"OutputStream.LastSeen+InterruptGetNext", "http", func(f *c20Fixture) { f.o.LastSeen(); f.o.InterruptGetNext() }},
 		{"LevelDBStore reads", "http", func(f *c20Fixture) {
 			var l raft.Log
